@@ -110,6 +110,14 @@ func buildWorld(impl string, base obs.AWorld) (ingest.MutableWorld, error) {
 		// everything lives in the overlay's own maps
 		w := ingest.NewMutableOverlayWorld(b6.EmptyWorld{})
 		return w, addAll(w, base)
+	case "tagsoverlay":
+		// MutableTagsOverlayWorld only supports AddTag and Snapshot (its search index is documented as not updated):
+		// it takes part in the snapshot property only, on histories of those two operations
+		bw, err := buildBasic(base)
+		if err != nil {
+			return nil, err
+		}
+		return &tagsWorld{ingest.NewMutableTagsOverlayWorld(bw)}, nil
 	case "overlay-overlay":
 		// half of the base in a basic world, the rest added to an overlay, a second overlay on top
 		bw, err := buildBasic(base)
@@ -120,6 +128,24 @@ func buildWorld(impl string, base obs.AWorld) (ingest.MutableWorld, error) {
 		return ingest.NewMutableOverlayWorld(mid), nil
 	}
 	return nil, fmt.Errorf("unknown impl %q", impl)
+}
+
+// tagsWorld adapts MutableTagsOverlayWorld to the MutableWorld interface for the operations it has.
+type tagsWorld struct {
+	*ingest.MutableTagsOverlayWorld
+}
+
+func (t *tagsWorld) AddFeature(f ingest.Feature) error { return fmt.Errorf("unsupported") }
+func (t *tagsWorld) AddTag(id b6.FeatureID, tag b6.Tag) error {
+	t.MutableTagsOverlayWorld.AddTag(id, tag)
+	return nil
+}
+func (t *tagsWorld) RemoveTag(id b6.FeatureID, key string) error { return fmt.Errorf("unsupported") }
+func (t *tagsWorld) EachModifiedFeature(each func(f b6.Feature, goroutine int) error, options *b6.EachFeatureOptions) error {
+	return nil
+}
+func (t *tagsWorld) EachModifiedTag(each func(f ingest.ModifiedTag, goroutine int) error, options *b6.EachFeatureOptions) error {
+	return nil
 }
 
 // ---------------------------------------------------------------- comparison
@@ -592,7 +618,7 @@ func runWorld(data json.RawMessage) vh.Verdict {
 	if err != nil {
 		return vh.Fail("harness-base", "cannot build base world: %v", err)
 	}
-	opts := obs.Options{Keys: c.Keys, Queries: c.Queries, Refs: true, Each: true, EachCores: c.Cores}
+	opts := obs.Options{Keys: c.Keys, Queries: c.Queries, Refs: true, Each: true, EachCores: c.Cores, Geometry: true}
 	cm := &comparer{c: &c, class: implClass(c.Impl)}
 	var copies []ingest.Feature
 	var snaps []b6.World
